@@ -299,6 +299,72 @@ def split_tuple_assign(tree):
     return tree
 
 
+def coalesce_generated(tree):
+    """y = E(x) ; ... y ... ; x = y     ->     x = E(x) ; ... x ...        for a name y the helper inliner generated (it exists
+    nowhere else), when x occurs between y's first definition and the copy only inside that first definition's right-hand side: x's
+    old value is dead from there on and the copy overwrites it, so y can live in x"""
+    for fn in [n for n in ast.walk(tree) if isinstance(n, (ast.FunctionDef, ast.AsyncFunctionDef))]:
+        gen = {x.id for x in ast.walk(fn) if isinstance(x, ast.Name) and '__' in x.id and not x.id.startswith('__')}
+        if not gen:
+            continue
+        for blk in _own_blocks(fn):
+            i = 0
+            while i < len(blk):
+                st = blk[i]
+                if isinstance(st, ast.Assign) and len(st.targets) == 1 and isinstance(st.targets[0], ast.Name) and \
+                        isinstance(st.value, ast.Name) and st.value.id in gen and st.targets[0].id != st.value.id:
+                    x, y = st.targets[0].id, st.value.id
+                    first = next((j for j in range(i) if any(isinstance(n, ast.Name) and n.id == y for n in ast.walk(blk[j]))), None)
+                    total_y = sum(1 for n in ast.walk(fn) if isinstance(n, ast.Name) and n.id == y)
+                    in_region = sum(1 for s_ in blk[first:i + 1] for n in ast.walk(s_) if isinstance(n, ast.Name) and n.id == y) \
+                        if first is not None else 0
+                    f0 = blk[first] if first is not None else None
+                    ok = first is not None and total_y == in_region and isinstance(f0, ast.Assign) and len(f0.targets) == 1 and \
+                        isinstance(f0.targets[0], ast.Name) and f0.targets[0].id == y
+                    if ok:
+                        x_in = sum(1 for s_ in blk[first:i] for n in ast.walk(s_) if isinstance(n, ast.Name) and n.id == x)
+                        x_rhs = sum(1 for n in ast.walk(f0.value) if isinstance(n, ast.Name) and n.id == x)
+                        ok = x_in == x_rhs and not any(isinstance(n, (ast.FunctionDef, ast.Lambda, ast.Try)) for s_ in blk[first:i]
+                                                       for n in ast.walk(s_))
+                    if ok:
+                        for s_ in blk[first:i]:
+                            for n in ast.walk(s_):
+                                if isinstance(n, ast.Name) and n.id == y:
+                                    n.id = x
+                        del blk[i]
+                        continue
+                i += 1
+    return tree
+
+
+def ifexp_to_statement(tree):
+    """t = A if c else B   ->   if c: t = A  else: t = B      (t a plain name or an attribute / constant-subscript chain of names, so
+    that evaluating the target after the test instead of after the value changes nothing);  `t = x or d` with x a reference is first
+    read as `t = x if x else d`. The arms then take part in the structural normal forms like any other two-armed if."""
+    def simple_target(t):
+        return _reference_expr(t) and not isinstance(t, ast.Constant)
+    for node, fld, blk in list(_blocks(tree)):
+        i = 0
+        while i < len(blk):
+            st = blk[i]
+            if isinstance(st, ast.Assign) and len(st.targets) == 1 and simple_target(st.targets[0]):
+                v = st.value
+                if isinstance(v, ast.BoolOp) and isinstance(v.op, ast.Or) and len(v.values) == 2 and _reference_expr(v.values[0]) and \
+                        not isinstance(v.values[0], ast.Constant):
+                    import copy
+                    v = ast.copy_location(ast.IfExp(test=v.values[0], body=copy.deepcopy(v.values[0]), orelse=v.values[1]), v)
+                if isinstance(v, ast.IfExp):
+                    import copy
+                    a = ast.copy_location(ast.Assign(targets=[copy.deepcopy(st.targets[0])], value=v.body), st)
+                    b = ast.copy_location(ast.Assign(targets=[copy.deepcopy(st.targets[0])], value=v.orelse), st)
+                    new = ast.copy_location(ast.If(test=v.test, body=[a], orelse=[b]), st)
+                    new._from_ifexp = True
+                    blk[i] = new
+                    continue          # nested conditional expressions in the arms
+            i += 1
+    return tree
+
+
 def loops_to_comprehensions(tree):
     """X = [] ; for T in IT: [if C:] X.append(E)   ->   X = [E for T in IT if C]      (X not used in IT / C / E, nothing between
        the two statements mentions X);  D = {} ; for T in IT: [if C:] D[K] = V  ->  D = {K: V for T in IT if C}"""
@@ -373,12 +439,14 @@ def merge_dict_stores(tree):
 
 
 def shape(tree, modname=None):
+    tree = ifexp_to_statement(tree)
     tree = NNF().visit(tree)
     tree = Shape().visit(tree)
     if modname is not None:
         from .inline import inline_helpers
         tree._inlined_helpers = inline_helpers(tree, modname)
     tree = split_tuple_assign(tree)
+    tree = coalesce_generated(tree)
     tree = structure(tree)
     tree = defaults_to_else(tree)
     tree = NNF().visit(tree)             # the nesting step creates new `not` tests
@@ -913,6 +981,8 @@ def _leads(hdr, t):
         elif isinstance(e, ast.JoinedStr):
             vals = [v.value for v in e.values if isinstance(v, ast.FormattedValue)]
             e = vals[0] if vals else None
+        elif isinstance(e, (ast.ListComp, ast.SetComp, ast.DictComp, ast.GeneratorExp)):
+            e = e.generators[0].iter         # the first iterable is evaluated first, and once
         else:
             return False
     return False
